@@ -2,7 +2,7 @@
    option, unit, list, prod, sumbool map to OCaml's; N / positive / nat / string
    stay the Coq inductives (no Extract Constant, no native integers). *)
 From Coq Require Import Extraction ExtrOcamlBasic.
-From Mtbl Require Import gen.Consts gen.CrcTables model.Bytes model.Codec model.Order model.Crc model.Block model.Writer model.WriteLoop model.Reader model.Verify model.Compress model.Heap model.Merger model.Sorter model.Fileset spec.Leb128 spec.Parse.
+From Mtbl Require Import gen.Consts gen.CrcTables model.Bytes model.Codec model.Order model.Crc model.Block model.Writer model.WriteLoop model.Reader model.Verify model.Compress model.Heap model.Merger model.Sorter model.Fileset model.Ledger spec.Leb128 spec.Parse.
 Extraction Language OCaml.
 Set Extraction KeepSingleton.
 Extraction "mtbl_model.ml"
@@ -11,7 +11,7 @@ Extraction "mtbl_model.ml"
   bcmp sep lcp is_prefix crc32c_ref crc_slicing crc_sse42
   writer_session writer_init writer_add writer_finish writer_chunks writer_bytes clamp_block_size metadata_read metadata_write
   write_chunks write_all error_met
-  frun fs_init
+  frun fs_init ledger footprint lrun
   sorter_init sorter_add sorter_iter sorter_next
   merger_iter_make merger_next merger_seek first_ge_from
   verify_file compression_type_to_str compression_type_from_str zlib_level lz4hc_level zstd_level
